@@ -44,6 +44,8 @@ EXPRESSIONS = [
     # the reserved fields are fields like any other; an unset field holds None, which takes part in typed matching like any other value
     "r._version == 1", "r._source == None", "r._classification is None", "r._source != 'x'", "r._version >= r.n", "Type.string == None", "Type.string != 'abc'", "None in [Type.string]",
     "Type.string in ['abc', 'x']", "Type.string not in ['abc']", "Type.varint in (5, 6)", "Type.varint not in [5]", "not (Type.string in ['abc'])",
+    # the VALUE of and / or is the operand that decides it: it matters wherever the result is compared, added to or handed to a helper
+    "(r.s or r.t) == 'x'", "(r.n or 7) + 1 == 8", "(r.s and r.t) == r.t", "(r.n and r.m) == 0", "(r.n or r.m) > 5", "upper(r.s or r.t) == 'X'", "(r.unset or r.s) == r.s", "(r.flag and r.n) in [0, 1, 2]", "[r.n or 1] == [1]",
     "r.s == 'a  b'", "'  ' in r.s", "r.s == 'a\tb'", "r.s   ==   'a b'", "r.s == '''a\nb'''", "r.s == 'a\xa0b'", "r.s in ['x  y', ' z ']",
 ]
 REJECTED = ["lambda: 1", "{1: 2}", "{1, 2}", "r.n if r.m else 1", "r.sl[0] == 'a'", "f'{r.n}'", "[x for x in r.sl]", "{x for x in r.sl}", "(y := 1)", "r.n - 1", "r.n // 2", "r.n ** 2", "r.n << 1", "r.n >> 1", "r.n ^ 1", "-r.n", "+r.n", "~r.n", "*r.sl", "r.n.__class__"]
@@ -159,8 +161,8 @@ def build(tier="quick", seed=0):
         pack.add(node_obligation(f"C07.node[Compare,{o1},{o2},{o3}]", f"a {o1} b {o2} c {o3} d", "abcd", mode="truth"))
     for op in ("and", "or"):
         for k in (2, 3, 4):
-            pack.add(node_obligation(f"C07.node[BoolOp,{op},{k}]", f" {op} ".join(letters[:k]), letters[:k], mode="truth"))
-    pack.add(node_obligation("C07.node[BoolOp,mixed]", "a and b or c and d", "abcd", mode="truth"))
+            pack.add(node_obligation(f"C07.node[BoolOp,{op},{k}]", f" {op} ".join(letters[:k]), letters[:k]))  # the value, not only its truth: the induction hypothesis of the enclosing node
+    pack.add(node_obligation("C07.node[BoolOp,mixed]", "a and b or c and d", "abcd"))
     pack.add(node_obligation("C07.node[UnaryOp,not]", "not a", "a", mode="truth"))
     for sym in BIN_OK:
         pack.add(node_obligation(f"C07.node[BinOp,{sym}]", f"a {sym} b", "ab"))
